@@ -80,4 +80,10 @@ PROPS = {
         'exhaustive_part': 'patterns up to the stated token bound over the 14-symbol alphabet',
         'assumptions': ['subjects and patterns ASCII'],
     },
+    'C05': {
+        'harness': 'c05',
+        'rule': 'mask rules (grammar patterns and token soup over the 14-symbol alphabet, with and without $match-case) and regular-expression rules: every regex rule of the bundled real-world lists, a pool of hand-picked shapes, and rules from a grammar with alternation, capturing and non-capturing groups, classes, \\d \\w \\s \\b \\xHH, quantifiers * + ? {m,n}; for each rule the harness searches a counter-example among subjects derived from the pattern and 80 strings generated from the parse tree of the compiled expression (accepted but lower-cased string does not contain the shortcut); non-trivial = the rule has a non-empty shortcut',
+        'correspondence': 'Shortcut of the implementation vs the model (findShortcut / findRegexpShortcut transcriptions); for regex rules the verified checker must_contain is evaluated on the model parse of the expression and the implementation shortcut: proved rules compare as sound, rules the checker cannot prove are counted undecided (unsupported_by_model), never alarms; a Go-side counter-example is a violation in every case',
+        'assumptions': ['ASCII; regex rules outside the modelled RE2 fragment are undecided by the model (Go-side counter-example search still applies)', 'hostname requests: lower-case hostnames (documented caller obligation)'],
+    },
 }
